@@ -67,6 +67,8 @@ package observation
 //@   ensures [not-supported-ends-it] called(select) && err == nil && callRes(select, 0, 4).notSupported ==> called(cleanUp)
 //@   ensures [supported-stays] called(select) && err == nil && !callRes(select, 0, 4).notSupported ==> notCalled(cleanUp)
 //
+//@ immutable Handler.observations
+//
 // The per-observation freshness state is guarded by its own mutex.
 //
 //@ guarded Observation.private.obsSequence by Observation.private.mutex
@@ -106,6 +108,7 @@ package observation
 //@   modifies anything
 //@   opaque-calls pure
 //@   lockinv [no-nil-observation] forall k int :: {present(h.observations.data, k)} present(h.observations.data, k) ==> h.observations.data[k] != nil
+//@   ensures [keeps-writer] w != nil ==> w.response == old(w.response)
 //@   ensures [lookup-by-own-token] callCount(Load) == 1 && callCount(Token) == 1 && callArg(Token, 0, 0) == r && callCount(Hash) == 1 && callArg(Hash, 0, 0) == callRes(Token, 0, 0) && callArg(Load, 0, 1) == callRes(Hash, 0, 0)
 //@   ensures [routed] callRes(Load, 0, 1) ==> callCount(handle) == 1 && callArg(handle, 0, 0) == callRes(Load, 0, 0) && callArg(handle, 0, 1) == r && notCalled(next)
 //@   ensures [otherwise-next] !callRes(Load, 0, 1) ==> callCount(next) == 1 && notCalled(handle)
